@@ -18,6 +18,7 @@ package immutable
 
 import (
 	"fmt"
+	"github.com/openGemini/openGemini/lib/verifhook"
 	"sort"
 	"time"
 
@@ -327,6 +328,7 @@ func (m *MmsTables) deleteUnorderedFiles(mst string, files []TSSPFile) {
 		return
 	}
 
+	verifhook.Point("merge-unordered-removed")
 	m.mu.Lock()
 	defer m.mu.Unlock()
 
